@@ -63,6 +63,8 @@ pub struct Fired {
     pub walk_failed: BTreeSet<String>,
     pub stdin_failed: bool,
     pub std_stream_failed: bool,
+    /// an advisory lock was refused (another process "holds" it)
+    pub lock_refused: bool,
     pub crashed: bool,
     /// kinds that fired at least once, with counts (for evidence)
     pub kinds: Vec<(String, u64)>,
@@ -134,6 +136,7 @@ pub fn fired(trace: &[TraceEvent]) -> Fired {
                 f.walk_failed.insert(ev.target.clone());
             }
             "crash" => f.crashed = true,
+            "flock" if ev.ret < 0 => f.lock_refused = true,
             _ => {}
         }
     }
@@ -155,6 +158,8 @@ pub fn run_inv(env: &Env, inv: &Inv) -> io::Result<Outcome> {
     let cwd: PathBuf = if inv.cwd == "." { root.clone() } else { root.join(crate::util::os(&inv.cwd)) };
     let plan: Vec<String> = inv.plan.iter().map(|r| r.render()).collect();
 
+    // `typstyle /dev/stdin`: standard input has to be a pipe then (a file could be re-read)
+    let uses_dev_stdin = matches!(&inv.shape, super::types::Shape::Files { paths, .. } if paths.iter().any(|p| p == "/dev/stdin"));
     let mut cmd = Command::new(&env.bin);
     cmd.args(inv.argv(&root_s).iter().map(|a| crate::util::os(a)))
         .current_dir(&cwd)
@@ -168,18 +173,39 @@ pub fn run_inv(env: &Env, inv: &Inv) -> io::Result<Outcome> {
         .env("HOME", env.home())
         .envs(inv.env.iter().map(|(k, v)| (k.as_str(), v.as_str())))
         .env("RUST_BACKTRACE", "0")
-        .stdin(Stdio::from(File::open(&stdin_p)?))
+        .stdin(if uses_dev_stdin { Stdio::piped() } else { Stdio::from(File::open(&stdin_p)?) })
         .stdout(Stdio::from(File::create(&stdout_p)?))
         .stderr(Stdio::from(File::create(&stderr_p)?));
     // no pre_exec: std then uses posix_spawn (no page-table copy, no mmap_lock contention between
     // the 16 worker threads). A runaway child is killed by the kernel through RLIMIT_CPU set from
     // outside (reported as a harness error, never a verdict).
     let mut child = cmd.spawn()?;
+    let feeder = if uses_dev_stdin {
+        let mut pipe = child.stdin.take();
+        let bytes = inv.stdin.as_ref().map(|b| b.0.clone()).unwrap_or_default();
+        Some(std::thread::spawn(move || {
+            use std::io::Write;
+            if let Some(p) = pipe.as_mut() {
+                let _ = p.write_all(&bytes);
+            }
+            drop(pipe);
+        }))
+    } else {
+        None
+    };
     unsafe {
         let lim = libc::rlimit { rlim_cur: 30, rlim_max: 40 };
         libc::prlimit(child.id() as libc::pid_t, libc::RLIMIT_CPU, &lim, std::ptr::null_mut());
     }
-    let status = child.wait()?;
+    // wall-clock watchdog: a child that blocks (on a FIFO, a lock, a terminal) burns no CPU, so
+    // RLIMIT_CPU never fires; it is killed after 30 s and reported as a harness error
+    watchdog::register(child.id());
+    let status = child.wait();
+    watchdog::unregister(child.id());
+    let status = status?;
+    if let Some(f) = feeder {
+        let _ = f.join();
+    }
     let trace_raw = crate::util::path_decode(&fs::read(&trace_p).unwrap_or_default());
     Ok(Outcome {
         exit: status.code(),
@@ -234,4 +260,35 @@ pub fn strip_root(bytes: &[u8], root: &str) -> String {
         }
     }
     String::from_utf8_lossy(&out).to_string()
+}
+
+mod watchdog {
+    use std::sync::{Mutex, OnceLock};
+    use std::time::{Duration, Instant};
+
+    static TABLE: OnceLock<Mutex<Vec<(u32, Instant)>>> = OnceLock::new();
+
+    fn table() -> &'static Mutex<Vec<(u32, Instant)>> {
+        TABLE.get_or_init(|| {
+            std::thread::spawn(|| loop {
+                std::thread::sleep(Duration::from_millis(250));
+                if let Some(t) = TABLE.get() {
+                    for (pid, since) in t.lock().unwrap().iter() {
+                        if since.elapsed() > Duration::from_secs(30) {
+                            unsafe { libc::kill(*pid as libc::pid_t, libc::SIGKILL) };
+                        }
+                    }
+                }
+            });
+            Mutex::new(Vec::new())
+        })
+    }
+
+    pub fn register(pid: u32) {
+        table().lock().unwrap().push((pid, Instant::now()));
+    }
+
+    pub fn unregister(pid: u32) {
+        table().lock().unwrap().retain(|(p, _)| *p != pid);
+    }
 }
